@@ -50,6 +50,10 @@ def check(ctx):
     ctx.attempt(_inc, 'RX-LANG', 'through_regex', F.THROUGH, thr, 'through words (any case)')
     ctx.attempt(emitted_trs_accepted)
     ctx.attempt(deduce_sees_every_section_word)
+    # one tract per named section, in reading order: no de-duplication / re-ordering on the way
+    _parse_path = [f for f in ctx.repo.funcs.values() if f.module.name.endswith(('plssdesc.plss_parse', 'unpack.unpackers'))]
+    ctx.attempt(common.dedup_idioms, _parse_path)
+    ctx.attempt(common.reorder_in_place, _parse_path)
     from .c04 import whitespace_only          # description blocks come back verbatim
     ctx.attempt(whitespace_only)
     ctx.attempt(_deduce_on_preprocessed)
@@ -303,6 +307,24 @@ def deduce_sees_every_section_word(ctx):
     if not searches:
         ctx.undecided('RX-LANG', construct, 'the section search of deduce_layout does not fold')
         return
+    # the whole text is searched: a slice that cuts the text off leaves a first section that stands
+    # further down (a long metes-and-bounds block in front) unseen
+    for a, _pat, _fl in searches:
+        c_ = a.value
+        subj = c_.args[1] if dotted(c_.func) == 're.search' and len(c_.args) > 1 else (c_.args[0] if c_.args else None)
+        cut = None
+        exprs = [subj] if subj is not None else []
+        if isinstance(subj, ast.Name):
+            exprs += [x.value for x in walk_local(fi.node) if isinstance(x, ast.Assign) and norm(x.targets[0]) == subj.id]
+        for e_ in exprs:
+            for x in ast.walk(e_):
+                if isinstance(x, ast.Subscript) and isinstance(x.slice, ast.Slice) and (x.slice.upper is not None or x.slice.lower is not None):
+                    cut = x
+        ctx.check(cut is None, 'RX-LANG', 'deduce_layout searches the whole text for the first section word',
+                  detail_bad=f"`{norm(cut) if cut is not None else ''}` limits the search to a part of the text: when the first block is "
+                             f"longer than that (a long metes-and-bounds paragraph in front of its section), no section is seen, the "
+                             f"layout is deduced as copy_all and the whole description collapses into one tract, without any flag",
+                  key="RX-LANG|deduce_layout|truncated-subject", where=common.loc(fi, a))
     words = _rx.enumerate_words(_rx.parse(base.pattern, base.flags), base.flags)
     for a, pat, fl in searches:
         L = _rx.Lang(pat, fl)
